@@ -117,8 +117,28 @@ bool ops_xmlfault(World &w, const Op &o) {
     else {
       r.count("probe.xmlfault_load_failed_cleanly");
       // the failed topology can be destroyed, or configured and loaded again
-      if (o.u("again") & 1) { bool undamaged = ((o.u("fs") >> 17) & 1) != 0;   // reload: a synthetic description, or the undamaged document
-        int ra = undamaged ? hwloc_topology_set_xmlbuffer(t, orig.c_str(), (int)orig.size() + 1) : hwloc_topology_set_synthetic(t, "pack:2 numa:1 core:2 pu:2"); int rb = ra == 0 ? hwloc_topology_load(t) : -1; r.count(undamaged ? "probe.xmlfault_reload_undamaged_document" : "probe.xmlfault_reload_synthetic"); if (ra || rb) { hwloc_topology_destroy(t); viol0(w, own, "xmlfault.reload_after_failure", "after a failed XML load the same topology could not be configured and loaded again (set %d load %d)", ra, rb); } Dump d; take_dump(t, d, DUMP_FULL); std::string e = wf_check(t, d); if (!e.empty()) viol(w, own, e.substr(0, e.find(": ")), "topology loaded after a failed XML load: %s", e.c_str()); r.count("probe.xmlfault_reconfigured_after_failure"); }
+      if (o.u("again") & 1) {
+        // reload on the same handle: a synthetic description, the undamaged document, or an intact Linux snapshot (a back-end with several discovery
+        // phases, unlike XML and synthetic); the failed attempt must leave no trace: the result equals what a fresh handle loads from the same source
+        int variant = (int)((o.u("fs") >> 17) & 3); size_t nsnap = snapshot_count(); long si = nsnap ? (long)((o.u("fs") >> 20) % nsnap) : -1;
+        if (variant == 2 && (si < 0 || strcmp(snapshot_kind((size_t)si), "linux"))) variant = 0;
+        auto configure = [&](hwloc_topology_t h) { if (o.u("filt") & 1) hwloc_topology_set_all_types_filter(h, HWLOC_TYPE_FILTER_KEEP_ALL); if (o.u("filt") & 2) hwloc_topology_set_io_types_filter(h, HWLOC_TYPE_FILTER_KEEP_IMPORTANT); hwloc_topology_set_flags(h, (o.u("filt") & 4) ? HWLOC_TOPOLOGY_FLAG_INCLUDE_DISALLOWED : 0); };
+        auto load_from = [&](hwloc_topology_t h, int *rap) { int ra = 0, rb;
+          if (variant == 1) ra = hwloc_topology_set_xmlbuffer(h, orig.c_str(), (int)orig.size() + 1); else if (variant != 2) ra = hwloc_topology_set_synthetic(h, "pack:2 numa:1 core:2 pu:2");
+          if (ra) rb = -1; else if (variant == 2) { std::string desc; rb = snapshot_load(h, (size_t)si, 0, 0, &desc); } else rb = hwloc_topology_load(h);
+          *rap = ra; return rb; };
+        int ra = 0; int rb = load_from(t, &ra);
+        r.count(variant == 1 ? "probe.xmlfault_reload_undamaged_document" : variant == 2 ? "probe.xmlfault_reload_snapshot" : "probe.xmlfault_reload_synthetic");
+        r.ev("xml_fault reload variant=%d -> set %d load %d", variant, ra, rb);
+        if (ra || rb) { hwloc_topology_destroy(t); viol0(w, own, "xmlfault.reload_after_failure", "after a failed XML load the same topology could not be configured and loaded again (variant %d: set %d load %d)", variant, ra, rb); }
+        Dump d; take_dump(t, d, DUMP_FULL); std::string e = wf_check(t, d); if (!e.empty()) { hwloc_topology_destroy(t); viol(w, own, e.substr(0, e.find(": ")), "topology loaded after a failed XML load: %s", e.c_str()); }
+        hwloc_topology_t fresh = nullptr; hwloc_topology_init(&fresh); configure(fresh); int fa = 0; int fb = load_from(fresh, &fa);
+        if (fa == 0 && fb == 0) { Dump df; take_dump(fresh, df, DUMP_FULL); std::string a = d.text(), b = df.text();
+          if (a != b) { size_t pa = 0, pb = 0; std::string la, lb; while (pa < a.size() || pb < b.size()) { size_t ea = a.find('\n', pa), eb = b.find('\n', pb); if (ea == std::string::npos) ea = a.size(); if (eb == std::string::npos) eb = b.size(); la = a.substr(pa, ea - pa); lb = b.substr(pb, eb - pb); if (la != lb) break; pa = ea + 1; pb = eb + 1; }
+            hwloc_topology_destroy(fresh); hwloc_topology_destroy(t); viol0(w, own, "xmlfault.reload_after_failure_differs", "the topology loaded on a handle whose previous XML load failed differs from what a fresh handle loads from the same source: '%s' vs '%s'", la.substr(0, 400).c_str(), lb.substr(0, 400).c_str()); }
+          r.count("probe.xmlfault_reload_equals_fresh_handle"); }
+        if (fresh) hwloc_topology_destroy(fresh);
+      }
       hwloc_topology_destroy(t);
     }
     if (!path.empty()) unlink(path.c_str());
